@@ -322,6 +322,7 @@ func init() {
 		ruleGoLiteral(c, r)
 		ruleKeyMember(c, r)
 		ruleDefaultSource(c, r)
+		ruleDefaultValueSemantics(c, r)
 	})
 }
 
